@@ -203,19 +203,35 @@ Proof.
     rewrite ends_md_join in HK |- * by exact Hs. exact HK.
 Qed.
 
-Theorem roundtrip_canonical ks ds :
-  Forall good_name ks -> Forall good_name ds ->
-  ends_with MD (join SEPS ks) = false ->
-  from_rel_link_url (to_rel_link_url (join SEPS ks) (join SEPS ds)) (join SEPS ds) = join SEPS ks.
+(* --- `strip_md` and `ref_url` -------------------------------------------------------------- *)
+
+Lemma strip_md_none s : ends_with MD s = false -> strip_md s = s.
+Proof. apply strip_suffix_once_none. Qed.
+
+(* exactly one extension goes, whatever the name is *)
+Lemma strip_md_app s : strip_md (s +++ MD) = s.
+Proof. apply strip_suffix_once_app. Qed.
+
+(* what `ref_url` writes is read back (`strip_md`) as the url it was given: for both extensions
+   iwe is configured with, for every url *)
+Lemma strip_md_ref_url u ext : ext = MD \/ ext = "" -> strip_md (ref_url u ext) = u.
 Proof.
-  intros Hk Hd HK. unfold to_rel_link_url, from_rel_link_url.
+  unfold ref_url. intros [-> | ->]; cbn [sempty andb].
+  - apply strip_md_app.
+  - destruct (ends_with MD u) eqn:E; [apply strip_md_app|]. rewrite append_nil_r. now apply strip_md_none.
+Qed.
+
+(* resolving the url written for K from D, the extension already taken off *)
+Lemma join_relative_canonical ks ds :
+  Forall good_name ks -> Forall good_name ds ->
+  join_normalized (join SEPS ds) (relative (join SEPS ds) (join SEPS ks)) = join SEPS ks.
+Proof.
+  intros Hk Hd.
   rewrite relative_canonical by assumption.
   destruct (strip_common_s_spec ds ks) as (p & Ed & Ek).
   set (ds' := fst (strip_common_s ds ks)) in *. set (ks' := snd (strip_common_s ds ks)) in *.
   assert (Hk' : Forall good_name ks') by (rewrite Ek in Hk; now apply Forall_app in Hk as [_ ?]).
   assert (Hp : Forall good_name p) by (rewrite Ek in Hk; now apply Forall_app in Hk as [? _]).
-  rewrite trim_end_matches_none.
-  2:{ apply rel_url_no_md with (p := p); [exact Hk' | now rewrite <- Ek | exact Hp]. }
   unfold join_normalized.
   rewrite (comps_join_good ds) by assumption.
   rewrite comps_join.
@@ -231,6 +247,40 @@ Proof.
   unfold render. rewrite rev_app_distr, !rev_involutive, <- map_app, <- Ek.
   unfold render_comps. now rewrite map_map, map_id.
 Qed.
+
+(* the url as `to_rel_link_url` returns it, without any extension: the key must not end in `.md` *)
+Theorem roundtrip_canonical ks ds :
+  Forall good_name ks -> Forall good_name ds ->
+  ends_with MD (join SEPS ks) = false ->
+  from_rel_link_url (to_rel_link_url (join SEPS ks) (join SEPS ds)) (join SEPS ds) = join SEPS ks.
+Proof.
+  intros Hk Hd HK. unfold to_rel_link_url, from_rel_link_url.
+  rewrite strip_md_none; [now apply join_relative_canonical|].
+  rewrite relative_canonical by assumption.
+  destruct (strip_common_s_spec ds ks) as (p & Ed & Ek).
+  apply rel_url_no_md with (p := p).
+  - rewrite Ek in Hk. now apply Forall_app in Hk as [_ ?].
+  - now rewrite <- Ek.
+  - rewrite Ek in Hk. now apply Forall_app in Hk as [? _].
+Qed.
+
+(* the url as it is WRITTEN (`ref_url`: with the configured extension, and with `.md` where the
+   key itself ends in `.md`) resolves back to the key: every key, also one ending in `.md` *)
+Theorem roundtrip_written ks ds ext :
+  Forall good_name ks -> Forall good_name ds -> ext = MD \/ ext = "" ->
+  from_rel_link_url (ref_url (to_rel_link_url (join SEPS ks) (join SEPS ds)) ext) (join SEPS ds) = join SEPS ks.
+Proof.
+  intros Hk Hd He. unfold from_rel_link_url, to_rel_link_url.
+  rewrite strip_md_ref_url by exact He. now apply join_relative_canonical.
+Qed.
+
+(* the key `x.md` (file `x.md.md`): written without an extension the url `x.md` would be read as
+   the note `x`; `ref_url` writes `x.md.md` *)
+Example roundtrip_md_key :
+  from_rel_link_url (to_rel_link_url "x.md" "") "" = "x" /\
+  ref_url (to_rel_link_url "x.md" "") "" = "x.md.md" /\
+  from_rel_link_url (ref_url (to_rel_link_url "x.md" "") "") "" = "x.md".
+Proof. vm_compute. repeat split. Qed.
 
 (* re-writing a resolved link from the same directory resolves to the same note:
    stated on keys, for any key that [from_rel_link_url] can produce in canonical form *)
